@@ -79,6 +79,18 @@ Fixpoint closed_from (st : option (Point R * Point R)) (els : list (PathEl R)) :
   end.
 Definition closed_path (els : list (PathEl R)) : Prop := closed_from None els.
 
+(** a syntactic sufficient condition: the list does not begin with [ClosePath], ends with [ClosePath]
+    (or is empty) and every later [MoveTo] comes directly after a [ClosePath] *)
+Definition is_close (e : PathEl R) : bool := match e with ClosePath => true | _ => false end.
+Fixpoint close_terminated_from (prev_closed : bool) (els : list (PathEl R)) : Prop :=
+  match els with
+  | [] => prev_closed = true
+  | e :: r => match e with MoveTo _ => prev_closed = true | _ => True end
+              /\ close_terminated_from (is_close e) r
+  end.
+Definition close_terminated (els : list (PathEl R)) : Prop :=
+  match els with ClosePath :: _ => False | _ => close_terminated_from true els end.
+
 (** an element list that is one sub-path (or several), beginning with [MoveTo] *)
 Definition starts_with_move (els : list (PathEl R)) : Prop :=
   match els with MoveTo _ :: _ => True | _ => False end.
@@ -86,6 +98,15 @@ Definition starts_with_move (els : list (PathEl R)) : Prop :=
 (** sum of optional areas ([None] = panic) *)
 Definition opt_add (a b : option R) : option R :=
   match a, b with Some x, Some y => Some (x + y) | _, _ => None end.
+
+(** ** The shoelace formula of a polygon [first, ..., prev, pts...]: sum of the cross products of
+    consecutive vertices, closing back to [first] *)
+Fixpoint shoelace_from (first prev : Point R) (pts : list (Point R)) : R :=
+  match pts with
+  | [] => v_cross (to_vec2 prev) (to_vec2 first)
+  | p :: r => v_cross (to_vec2 prev) (to_vec2 p) + shoelace_from first p r
+  end.
+Definition shoelace (a : Point R) (mid : list (Point R)) : R := / 2 * shoelace_from a a mid.
 
 (** ** Re-expressing a line *)
 Definition line_as_quad (l : Line R) : QuadBez R := mkQuad (l0 l) (pt_midpoint (l0 l) (l1 l)) (l1 l).
